@@ -160,7 +160,7 @@ def run(ctx):
         if quick:
             args = ["-seed", ctx.seed, "-n", 1000, "-fill", 600, "-text", 500, "-race", 2]
         else:
-            args = ["-seed", ctx.seed, "-n", 50000, "-fill", 20000, "-text", 20000, "-sweep", "-race", 20]
+            args = ["-seed", ctx.seed, "-n", 10000, "-fill", 6000, "-text", 5000, "-sweep", "-race", 20]
         rows = run_harness(ctx, "c11", "cases.jsonl", args, timeout=3000)
         if not quick and build_race(ctx):
             more = run_harness(ctx, "c11race", "race.jsonl", ["-seed", ctx.seed + 5, "-n", 300, "-fill", 100, "-text", 10, "-race", 40],
